@@ -121,7 +121,9 @@ def behaviour(rng, i):
             left.append({"k": k0 + rng.choice([1, 2]), "ids": [9001, 9002]})
             rng.shuffle(left)
     leftovers = [{"name": expected_name(kind, f["k"], prefix, suffix), "content": "".join("b%d\n" % x for x in f["ids"])} for f in left]
-    return {"src": "random-c16", "id": i, "kind": kind, "prefix": prefix, "suffix": suffix, "max_files": maxf, "t0": t0, "steps": steps,
+    # with a prefix only, the appender may equally be made by RollingFileAppender::new or the helper functions
+    ctor = rng.choice(["builder", "new", "helper"]) if (prefix is not None and suffix is None and maxf == 0) else "builder"
+    return {"src": "random-c16", "id": i, "kind": kind, "prefix": prefix, "suffix": suffix, "max_files": maxf, "t0": t0, "steps": steps, "ctor": ctor,
             "left": left, "leftovers": leftovers}
 
 
